@@ -3,7 +3,7 @@
    Third-party introductions: lib/Gifts.v (owners, giver B, recipient C), proofs in lib/GiftsProofs.v. *)
 From Coq Require Import ZArith List Bool.
 Import ListNotations.
-Require Import Verif.lib.PyLite Verif.gen.RefsGen Verif.lib.Refs Verif.lib.RefsProofs Verif.lib.Gifts Verif.lib.GiftsProofs.
+Require Import Verif.lib.PyLite Verif.gen.RefsGen Verif.lib.Refs Verif.lib.RefsProofs Verif.lib.Gifts Verif.lib.GiftsProofs Verif.lib.GiftsCompose.
 Local Open Scope Z_scope.
 
 (* "while the receiving side still holds it, a pass-by-reference object sent any number of times over one connection
@@ -121,3 +121,76 @@ Theorem C08_all_introductions_faithful : forall ops,
   Forall (fun e => exists id w, e = EvIntro id (Some w) w) (trun_events tinit ops).
 Proof. exact all_introductions_faithful. Qed.
 Print Assumptions C08_all_introductions_faithful.
+
+(* "Method calls through any of these reach the original object", for the proxy a THIRD PARTY obtained by introduction: one
+   theorem across the two models.  lib/Gifts.v decides which object the owner answers the recipient's lookup with (the one
+   the giver's proxy designates); lib/Refs.v, as the model of the connection owner <-> recipient in any reachable state,
+   carries it from the owner's slicer to the call: the answer is a my-reference whose clid is allocated for x; whenever it
+   is delivered the recipient holds a proxy p; every call through p / every time p is sent home, for as long as p is held,
+   is resolved by the owner to x itself.  The interface (what Gifts assumes of that connection = what Refs proves):
+   RefsProofs.delivery_denotes, denotes_persists, call_names_object, call_reaches_object. *)
+Theorem C08_gift_proxy_calls_reach_original :
+  forall gops i m,
+    let g := trun tinit gops in
+    nth_error (lookups g) i = Some m ->
+    let x := snd (tr_want m) in
+    resolve g (tr_url m) = Some (tr_want m) /\
+    forall rops, let s := run init rops in lost s = false ->
+    exists c, ch_oh (fst (step s (Send x false))) = ch_oh s ++ [MyRef c false] /\
+    forall ops2 rest, let s2 := run (fst (step s (Send x false))) ops2 in
+      lost s2 = false -> ch_oh s2 = MyRef c false :: rest ->
+      exists p, snd (step s2 RecvOH) = [EvDelivered p] /\
+      forall ops3 k, let s3 := run (fst (step s2 RecvOH)) ops3 in
+        lost s3 = false -> holds s3 p ->
+        exists c', ch_ho (fst (step s3 (SendHome p k))) = ch_ho s3 ++ [ToOwner c' k] /\
+        forall ops4 rest', let s4 := run (fst (step s3 (SendHome p k))) ops4 in
+          lost s4 = false -> ch_ho s4 = ToOwner c' k :: rest' -> snd (step s4 RecvHO) = [EvHome k (Some x)].
+Proof. exact gift_proxy_calls_reach_original. Qed.
+Print Assumptions C08_gift_proxy_calls_reach_original.
+
+(* the same chain inside one connection: a delivered proxy designates the object its clid was allocated for, keeps
+   designating it while held, and calls through it are resolved to that object *)
+Theorem C08_delivered_proxy_designates_object : forall ops c x rest,
+  let s := run init ops in
+  lost s = false -> ch_oh s = MyRef c false :: rest -> In (c, x) (o_alloc (ow s)) ->
+  exists p, snd (step s RecvOH) = [EvDelivered p] /\ denotes (fst (step s RecvOH)) p x /\ lost (fst (step s RecvOH)) = false.
+Proof. exact delivery_denotes. Qed.
+Print Assumptions C08_delivered_proxy_designates_object.
+
+Theorem C08_proxy_keeps_designating : forall ops ops2 p x,
+  let s := run init ops in
+  denotes s p x -> lost (run s ops2) = false -> holds (run s ops2) p -> denotes (run s ops2) p x.
+Proof. exact denotes_persists. Qed.
+Print Assumptions C08_proxy_keeps_designating.
+
+(* D16 and its smallest repair.  With the deletion rule of freeYourReferenceTracker as a parameter of the model
+   (`step_k` / `run_k`; the source's rule is freeTracker_delkey and `step_k freeTracker_delkey = step`): under deletion BY
+   IDENTITY (`if self.yourReferenceByCLID.get(tracker.clid) is tracker`) the first sentence holds at FULL strength, in every
+   history, without the safe_run guard ... *)
+Theorem C08_same_proxy_with_identity_rule : forall ops,
+  let s := run_k DelByIdentity init ops in
+  forall i t p rest,
+    lost s = false -> nth_error (h_trk (hd s)) i = Some t -> t_proxy t = Some p ->
+    ch_oh s = MyRef (t_clid t) false :: rest ->
+    snd (step_k DelByIdentity s RecvOH) = [EvDelivered p].
+Proof. exact same_proxy_with_identity_rule. Qed.
+Print Assumptions C08_same_proxy_with_identity_rule.
+
+Theorem C08_one_proxy_per_clid_with_identity_rule : forall ops,
+  let s := run_k DelByIdentity init ops in
+  forall i j ti tj, nth_error (h_trk (hd s)) i = Some ti -> nth_error (h_trk (hd s)) j = Some tj ->
+                    t_proxy ti <> None -> t_proxy tj <> None -> t_clid ti = t_clid tj -> i = j.
+Proof. exact one_proxy_per_clid_with_identity_rule. Qed.
+Print Assumptions C08_one_proxy_per_clid_with_identity_rule.
+
+(* ... and the moment the SOURCE uses that rule (the constant is re-read from freeYourReferenceTracker on every run) the
+   statement holds of `run` / `step` themselves *)
+Theorem C08_same_proxy_if_identity_rule :
+  freeTracker_delkey = DelByIdentity ->
+  forall ops, let s := run init ops in
+  forall i t p rest,
+    lost s = false -> nth_error (h_trk (hd s)) i = Some t -> t_proxy t = Some p ->
+    ch_oh s = MyRef (t_clid t) false :: rest ->
+    snd (step s RecvOH) = [EvDelivered p].
+Proof. exact same_proxy_if_identity_rule. Qed.
+Print Assumptions C08_same_proxy_if_identity_rule.
